@@ -166,7 +166,14 @@ impl<T: Read + Seek, S: ReadableShape> Iterator for ShapeIterator<'_, T, S> {
                 }
             }
             let (hdr, shape) = match read_one_shape_as::<T, S>(self.source) {
-                Err(e) => return Some(Err(e)),
+                Err(e) => {
+                    if self.shapes_indices.is_none() {
+                        // Where the next record starts is not known: stop here,
+                        // instead of returning the same error forever
+                        self.current_pos = self.file_length;
+                    }
+                    return Some(Err(e));
+                }
                 Ok(hdr_and_shape) => hdr_and_shape,
             };
             self.current_pos += record::RecordHeader::SIZE;
